@@ -5,9 +5,11 @@
    Definitions only.  The JSON encoding of basic values (json.Marshal / sonic.Unmarshal)
    and of map keys (sonic.MarshalString / sonic.UnmarshalString) are Section variables;
    [jenc_c] … [kdec_c] at the end are the concrete instance used by the correspondence
-   check.  [fixes] selects the current code (both true) or the code before the repairs
-   F-C12a (decoder ignored PointerNum for maps and slices) and F-C12b (a nil pointer was
-   recorded with the depth at which it was found only). *)
+   check.  [fixes] selects the current code (all true) or the code before the repairs
+   F-C12a (decoder ignored PointerNum for maps and slices), F-C12b (a nil pointer was
+   recorded with the depth at which it was found only), F-C12e (arrays rebuilt as slices),
+   F-C12f (registered defined container types lost their name), F-C12i (a pointer to an
+   unregistered defined container type was accepted). *)
 From Coq Require Import List Bool Arith NArith ZArith String Ascii Lia.
 From Eino Require Import Base.Util Base.Universe.
 Import ListNotations.
@@ -19,9 +21,12 @@ Definition E_FIELD : N := 3.          (* "can not set field" / "cannot find fiel
 Definition E_NIL_TOP : N := 4.        (* Unmarshal of the bytes Marshal(nil) produced *)
 Definition E_UNMODELLED : N := 99.    (* input outside the modelled fragment (see notes/C12.md) *)
 
-Record fixes : Type := { fix_a : bool; fix_b : bool }.
-Definition fixed : fixes := {| fix_a := true; fix_b := true |}.
-Definition v0 : fixes := {| fix_a := false; fix_b := false |}.
+(* fix_e: arrays are marked (IsArray) and rebuilt as arrays (F-C12e); fix_f: the registered
+   name of a defined container type is recorded and used (F-C12f); fix_i: a pointer to an
+   unregistered defined container type is refused (F-C12i) *)
+Record fixes : Type := { fix_a : bool; fix_b : bool; fix_e : bool; fix_f : bool; fix_i : bool }.
+Definition fixed : fixes := {| fix_a := true; fix_b := true; fix_e := true; fix_f := true; fix_i := true |}.
+Definition v0 : fixes := {| fix_a := false; fix_b := false; fix_e := false; fix_f := false; fix_i := false |}.
 
 (* the registry: name <-> type (GenericRegister keeps both maps injective) *)
 Definition registry := list (string * ty).
@@ -65,6 +70,8 @@ Fixpoint looked_up (v : val) : list ty :=
   | VMap k t (Some kvs) => stripped k :: stripped t :: flat_map (fun kv => looked_up (snd kv)) kvs
   | VIface _ None => []
   | VIface _ (Some w) => looked_up w
+  | VArray t es => stripped t :: flat_map looked_up es
+  | VDef _ w => looked_up w       (* the defined type itself: see [enc_at] *)
   end.
 
 (* monadic map, written with the function outside the fixpoint so that it can be used
@@ -93,8 +100,18 @@ Section Ser.
   | IBasic (pn : nat) (key : string) (j : J)
   | IStruct (pn : nat) (key : string) (fields : list (string * option istruct))
   | IMap (pn kpn : nat) (kname : string) (vpn : nat) (vname : string)
-         (entries : list (JK * option istruct))
-  | ISlice (pn epn : nat) (ename : string) (elems : list (option istruct)).
+         (entries : list (JK * option istruct)) (ct : option string)     (* ContainerType *)
+  | ISlice (pn epn : nat) (ename : string) (elems : list (option istruct))
+           (arr : bool) (ct : option string).                            (* IsArray, ContainerType *)
+
+  Definition set_cti (ct : option string) (i : istruct) : istruct :=
+    match i with
+    | IMap pn kpn kn vpn vn es _ => IMap pn kpn kn vpn vn es ct
+    | ISlice pn epn en es arr _ => ISlice pn epn en es arr ct
+    | _ => i
+    end.
+  Definition set_ct (ct : option string) (oi : option istruct) : option istruct :=
+    match oi with Some i => Some (set_cti ct i) | None => None end.
 
   Definition lookup_name (t : ty) : res string :=
     match rm_lookup reg t with Some k => Ok k | None => Err E_UNKNOWN_TYPE end.
@@ -140,14 +157,25 @@ Section Ser.
                       | Some kvs => mapM (fun kv => do i <- enc_at 0 (snd kv);
                                                     do jk <- enc_key (fst kv); Ok (jk, i)) kvs
                       end;
-        Ok (Some (IMap pn (fst kk) (snd kk) (fst vk) (snd vk) entries))
+        Ok (Some (IMap pn (fst kk) (snd kk) (fst vk) (snd vk) entries None))
     | VSlice t o =>
         do ek <- elem_key t;
         do elems <- match o with
                     | None => Ok []
                     | Some es => mapM (enc_at 0) es
                     end;
-        Ok (Some (ISlice pn (fst ek) (snd ek) elems))
+        Ok (Some (ISlice pn (fst ek) (snd ek) elems false None))
+    | VArray t es =>
+        do ek <- elem_key t;
+        do elems <- mapM (enc_at 0) es;
+        Ok (Some (ISlice pn (fst ek) (snd ek) elems (fix_e fx) None))
+    | VDef d w =>
+        (* the container is encoded as such; the registered name of the defined type is
+           recorded; unregistered and behind a pointer: refused *)
+        let ct := if fix_f fx then rm_lookup reg (TDef d (ty_of w)) else None in
+        if fix_i fx && negb (Nat.eqb pn 0) && match ct with None => true | Some _ => false end
+        then Err E_UNKNOWN_TYPE
+        else do oi <- enc_at pn w; Ok (set_ct ct oi)
     | VBase b l =>
         do key <- lookup_name (TBase b);
         do j <- jenc b l;
@@ -163,7 +191,13 @@ Section Ser.
   Definition assign (t : ty) (v : val) : res val :=
     if ty_eqb (ty_of v) t then Ok v
     else if is_iface t && negb (is_iface (ty_of v)) then Ok (VIface t (Some v))
-    else Panic.
+    else match t, v with
+         | TDef d u, _ => if ty_eqb (ty_of v) u then Ok (VDef d v) else Panic
+         | _, VDef _ w => if ty_eqb (ty_of w) t then Ok w else Panic
+         | _, _ => Panic
+         end.
+  (* (identical underlying types, one of the two types not a defined type: a value of the
+     unnamed container type goes into a position of the defined type and vice versa) *)
 
   (* what ends up in a position of type t: the decoded value, or (value == nil) the zero value *)
   Definition place (t : ty) (o : option val) : res val :=
@@ -205,6 +239,17 @@ Section Ser.
 
   Definition cpn (pn : nat) : nat := if fix_a fx then pn else O.
 
+  (* containerType: the type a container is rebuilt with *)
+  Definition assignable_to (t c : ty) : bool :=
+    ty_eqb t c || match c with TDef _ u => ty_eqb u t | _ => false end.
+  Definition container_ty (ct : option string) (t : ty) : res ty :=
+    match ct with
+    | None => Ok t
+    | Some k => do c <- lookup_ty k; if assignable_to t c then Ok c else Err E_FIELD
+    end.
+  Definition as_ty (c : ty) (v : val) : val :=
+    match c with TDef d _ => VDef d v | _ => v end.
+
   (* internalUnmarshal on a non-nil *internalStruct *)
   Fixpoint dec (i : istruct) : res val :=
     match i with
@@ -237,21 +282,27 @@ Section Ser.
                | _ => Panic
                end
         end
-    | IMap pn kpn kname vpn vname entries =>
+    | IMap pn kpn kname vpn vname entries ct =>
         do kt0 <- lookup_ty kname;
         do vt0 <- lookup_ty vname;
         let kt := add_ptr kpn kt0 in
         let vt := add_ptr vpn vt0 in
+        do c <- container_ty ct (TMap kt vt);
         do kvs <- mapM (fun e =>
                      do k <- dec_key kt (fst e);
                      do v <- hole dec vt (snd e);
                      Ok (k, v)) entries;
-        Ok (wrap_ptr (cpn pn) (VMap kt vt (Some kvs)))
-    | ISlice pn epn ename elems =>
+        Ok (wrap_ptr (cpn pn) (as_ty c (VMap kt vt (Some kvs))))
+    | ISlice pn epn ename elems arr ct =>
         do et0 <- lookup_ty ename;
         let et := add_ptr epn et0 in
-        do es <- mapM (hole dec et) elems;
-        Ok (wrap_ptr (cpn pn) (VSlice et (match es with [] => None | _ => Some es end)))
+        if arr
+        then do c <- container_ty ct (TArray (List.length elems) et);
+             do es <- mapM (hole dec et) elems;
+             Ok (wrap_ptr (cpn pn) (as_ty c (VArray et es)))
+        else do c <- container_ty ct (TSlice et);
+             do es <- mapM (hole dec et) elems;
+             Ok (wrap_ptr (cpn pn) (as_ty c (VSlice et (match es with [] => None | _ => Some es end))))
     end.
 
   (* Marshal / Unmarshal.  Marshal(nil) produces the bytes "null", which Unmarshal reads
@@ -267,8 +318,8 @@ End Ser.
 Arguments INull {J JK} pn nn key.
 Arguments IBasic {J JK} pn key j.
 Arguments IStruct {J JK} pn key fields.
-Arguments IMap {J JK} pn kpn kname vpn vname entries.
-Arguments ISlice {J JK} pn epn ename elems.
+Arguments IMap {J JK} pn kpn kname vpn vname entries ct.
+Arguments ISlice {J JK} pn epn ename elems arr ct.
 
 (* ------------------------------------------------------------------------------
    Concrete JSON layer used by the correspondence check: a JSON text is modelled by the
